@@ -85,6 +85,54 @@ BIJ_VEC_REF = (
     "    return jnp.vectorize(func, signature=_get_ufunc_signature(in_shapes, out_shapes), excluded=exclude)\n")
 
 
+PROTECTED = {
+    # name -> reference body (None: reference already in PUBLIC / VECTORIZE_REF / KEYS_REF)
+    "log_prob": None, "sample": None, "sample_and_log_prob": None, "_vectorize": None, "_get_sample_keys": None,
+    "ndim": "def ndim(self):\n    return len(self.shape)\n",
+    "cond_ndim": "def cond_ndim(self):\n    return None if self.cond_shape is None else len(self.cond_shape)\n",
+}
+
+
+def rule_no_override(prog, rep):
+    """The batching machinery lives in AbstractDistribution; a subclass (or a mixin in its MRO) that re-defines one of
+    its pieces must compute the same thing from the subclass's own shape / cond_shape."""
+    c0 = prog.cls(DIST)
+    done = set()
+    for c in prog.subclasses(DIST):
+        for name, ref in PROTECTED.items():
+            r = prog.find_method(c, name)
+            if r is None or r[0].qualname == DIST:
+                continue
+            owner, fn = r
+            if (owner.qualname, name) in done:
+                continue   # one report per overriding definition (evaluated in the first class that resolves to it)
+            done.add((owner.qualname, name))
+            site = f"{owner.module.relpath}:{fn.lineno}"
+            k = f"{c.qualname}.{name} (resolved to {owner.name}.{name})"
+            if ref is None:
+                if name in PUBLIC:
+                    args, src = PUBLIC[name]
+                elif name == "_get_sample_keys":
+                    args, src = [KEY, SS, CONDS], KEYS_REF
+                else:
+                    rep.undecided("C06.lift", site, k, f"{owner.name} overrides {name}: no reference for an overriding "
+                                                       f"vectoriser")
+                    continue
+                got = Interp(prog, no_inline=NOIN).eval_method(c, name, args)
+                want = eval_ref_method(prog, c, src, args, no_inline=NOIN)
+            else:
+                # compare through the class's own property bodies (shape of a transformed distribution is its base's)
+                import ast as _ast
+                from ..refs import prelude
+                from ..terms import Env
+                gi, wi = Interp(prog), Interp(prog)
+                gi.inline_properties = wi.inline_properties = True
+                got = gi.as_term(gi.eval_method(c, name, []))
+                S = ("sym", "self")
+                want = wi.as_term(wi.apply_def(_ast.parse(ref).body[0], Env(prelude(prog)), (c.module, c, S), [S], {}))
+            compare(rep, "C06.lift", site, k, got, want, f"overriding {name}")
+
+
 def rule_public_lift(prog, rep, R):
     """Each public distribution method reaches its private core only through self._vectorize(core) - the function
     that carries the per-element shape check - with (x | keys, condition) in this order."""
@@ -127,6 +175,7 @@ def run(prog: Program, rep: Report, tier: str):
                                no_inline={"flowjax.bijections.bijection._VectorizedBijection.vectorize"})
         compare(rep, "C06.lift", method_site(prog, vb, meth), f"_VectorizedBijection.{meth}", got, want,
                 "vectorised bijection method")
+    rule_no_override(prog, rep)
     rep.rule("C06.keys", "_get_sample_keys returns reshape(split(key, max(1, prod(sample_shape + leading condition "
                          "shape))), (*key_shape, 2)) with the leading shape cut at -cond_ndim or None; on every path "
                          "(no shortcut that broadcasts one key); cond_ndim = None iff unconditional", minimum=3)
